@@ -241,7 +241,7 @@ func c05HasWord(s, w string) bool {
 			continue
 		}
 		isId := func(b byte) bool {
-			return b == '_' || b == '.' || (b >= '0' && b <= '9') || (b >= 'a' && b <= 'z') || (b >= 'A' && b <= 'Z')
+			return b == '_' || (b >= '0' && b <= '9') || (b >= 'a' && b <= 'z') || (b >= 'A' && b <= 'Z')
 		}
 		if i > 0 && isId(s[i-1]) {
 			continue
@@ -286,6 +286,13 @@ func c05Recv(ptr bool) string {
 		return "(*T§)"
 	}
 	return "(T§)"
+}
+
+func c05Or(s, d string) string {
+	if s == "" {
+		return d
+	}
+	return s
 }
 
 func c05B(b bool) string {
@@ -412,7 +419,7 @@ func c05ArityCases(thorough bool) []*c05Case {
 // ---------------------------------------------------------------------------------------------
 // receiver kind × & marker × where the method comes from × interface shape
 
-type c05Src struct{ Name, Pre, TypeDecl string }
+type c05Src struct{ Name, Pre, TypeDecl, Cause string }
 
 var c05Srcs = []c05Src{
 	{"direct-val", "func (T§) M() {}\n", "type T§ struct{}"},
@@ -420,17 +427,17 @@ var c05Srcs = []c05Src{
 	{"embE-val", "type E§ struct{}\nfunc (E§) M() {}\n", "type T§ struct{ E§ }"},
 	{"embE-ptr", "type E§ struct{}\nfunc (*E§) M() {}\n", "type T§ struct{ E§ }"},
 	{"embPE-val", "type E§ struct{}\nfunc (E§) M() {}\n", "type T§ struct{ *E§ }"},
-	{"embPE-ptr", "type E§ struct{}\nfunc (*E§) M() {}\n", "type T§ struct{ *E§ }"},
+	{"embPE-ptr", "type E§ struct{}\nfunc (*E§) M() {}\n", "type T§ struct{ *E§ }", "ptr-embed-promotion"},
 	{"embIface", "type K§ interface{ M() }\n", "type T§ struct{ K§ }"},
 	{"emb2-val", "type F§ struct{}\nfunc (F§) M() {}\ntype E§ struct{ F§ }\n", "type T§ struct{ E§ }"},
 	{"emb2-ptr", "type F§ struct{}\nfunc (*F§) M() {}\ntype E§ struct{ F§ }\n", "type T§ struct{ E§ }"},
-	{"emb2-E-PF-ptr", "type F§ struct{}\nfunc (*F§) M() {}\ntype E§ struct{ *F§ }\n", "type T§ struct{ E§ }"},
-	{"emb2-PE-F-ptr", "type F§ struct{}\nfunc (*F§) M() {}\ntype E§ struct{ F§ }\n", "type T§ struct{ *E§ }"},
+	{"emb2-E-PF-ptr", "type F§ struct{}\nfunc (*F§) M() {}\ntype E§ struct{ *F§ }\n", "type T§ struct{ E§ }", "ptr-embed-promotion"},
+	{"emb2-PE-F-ptr", "type F§ struct{}\nfunc (*F§) M() {}\ntype E§ struct{ F§ }\n", "type T§ struct{ *E§ }", "ptr-embed-promotion"},
 	{"embImp-val", "", "type T§ struct{ a.Impl }"},
 	{"embImp-E-ptr", "", "type T§ struct{ a.PImpl }"},
-	{"embImp-PE-ptr", "", "type T§ struct{ *a.PImpl }"},
+	{"embImp-PE-ptr", "", "type T§ struct{ *a.PImpl }", "ptr-embed-promotion"},
 	{"embAlias-E-val", "type E§ struct{}\nfunc (E§) M() {}\ntype AE§ = E§\n", "type T§ struct{ AE§ }"},
-	{"embPAlias-E-ptr", "type E§ struct{}\nfunc (*E§) M() {}\ntype AE§ = E§\n", "type T§ struct{ *AE§ }"},
+	{"embPAlias-E-ptr", "type E§ struct{}\nfunc (*E§) M() {}\ntype AE§ = E§\n", "type T§ struct{ *AE§ }", "ptr-embed-promotion"},
 	{"none", "", "type T§ struct{}"},
 	{"wrongsig", "func (T§) M(int) {}\n", "type T§ struct{}"},
 	{"nonstruct-val", "func (T§) M() {}\n", "type T§ int"},
@@ -441,10 +448,10 @@ var c05Srcs = []c05Src{
 	{"shadowed", "type E§ struct{}\nfunc (E§) M() {}\nfunc (T§) M(int) {}\n", "type T§ struct{ E§ }"},
 	{"ambiguous", "type E§ struct{}\nfunc (E§) M() {}\ntype F§ struct{}\nfunc (F§) M() {}\n", "type T§ struct{ E§; F§ }"},
 	{"named-ptr", "type E§ struct{}\nfunc (E§) M() {}\n", "type T§ *E§"},
-	{"T-iface-has", "", "type T§ interface{ M() }"},
-	{"T-iface-embeds", "type K§ interface{ M() }\n", "type T§ interface{ K§ }"},
-	{"T-iface-embeds-I", "", "type T§ interface{ I§; X() }"},
-	{"T-iface-lacks", "", "type T§ interface{ X() }"},
+	{"T-iface-has", "", "type T§ interface{ M() }", "T-is-interface"},
+	{"T-iface-embeds", "type K§ interface{ M() }\n", "type T§ interface{ K§ }", "T-is-interface"},
+	{"T-iface-embeds-I", "", "type T§ interface{ I§; X() }", "T-is-interface"},
+	{"T-iface-lacks", "", "type T§ interface{ X() }", "T-is-interface"},
 }
 
 type c05Shape struct{ Name, Decl string }
@@ -466,7 +473,7 @@ func c05RecvCases() []*c05Case {
 				out = append(out, &c05Case{
 					Fam:      "recv",
 					Coord:    fmt.Sprintf("src=%s|iface=%s|amp=%s", s.Name, sh.Name, c05B(amp)),
-					Cause:    "-",
+					Cause:    c05Or(s.Cause, "-"),
 					FileKey:  "default",
 					Imports:  c05DefaultImports,
 					Pre:      sh.Decl + s.Pre,
@@ -504,8 +511,14 @@ func c05UnexpCases() []*c05Case {
 		for _, amp := range []bool{false, true} {
 			an := x.ann
 			an.Amp = amp
+			// the interface's unexported method and a same-named method in T's method set
+			// belong to different packages
+			cause := "-"
+			if strings.Contains(x.name, "own-hidden") || x.name == "local|T=embeds-foreign-impl" {
+				cause = "unexported-other-package"
+			}
 			out = append(out, &c05Case{
-				Fam: "unexp", Coord: fmt.Sprintf("iface=%s|amp=%s", x.name, c05B(amp)), Cause: "-",
+				Fam: "unexp", Coord: fmt.Sprintf("iface=%s|amp=%s", x.name, c05B(amp)), Cause: cause,
 				FileKey: "default", Imports: c05DefaultImports, Pre: x.pre, TypeDecl: x.decl, Anns: []c05Ann{an},
 			})
 		}
